@@ -60,13 +60,13 @@ Fixpoint in_fragment (e : expr) : bool :=
   | Lit _ | Var _ | Slot _ => true
   | Unknown _ _ => false
   | If c t f => in_fragment c && in_fragment t && in_fragment f
-  | And a b => negb (match a with And _ _ => true | _ => false end) && in_fragment a && in_fragment b
-  | Or a b => negb (match a with Or _ _ => true | _ => false end) && in_fragment a && in_fragment b
+  | And a b => in_fragment a && in_fragment b
+  | Or a b => in_fragment a && in_fragment b
   | UnApp UIsEmpty _ => false
   | UnApp _ a => in_fragment a
   | BinApp op a b =>
       match binop_tok op with
-      | Some _ => negb (same_assoc op a) && in_fragment a && in_fragment b
+      | Some _ => in_fragment a && in_fragment b
       | None => false
       end
   | ExtCall _ _ => false
